@@ -4,6 +4,7 @@ CONSTANTS
   RenderSetsType = TRUE
   BodilessByLine = FALSE
   ForgetCloseOnFault = FALSE
+  StaleLengthOnRenderFault = FALSE
   Tier = "tiny"
   Ifaces = {"wsgi", "asgi"}
   Codes = {200, 204}
